@@ -107,6 +107,7 @@ Lemma select_sound_br : forall shards cs,
   sharded_search_br shards cs = flat_map (search_shard_br cs) shards.
 Proof.
   intros shards cs. unfold sharded_search_br, sharded_search_br_gen, select_gen.
+  rewrite do_select_coded_eq.
   destruct (do_select true shards [] cs) as [sel cs'] eqn:E.
   destruct (do_select_spec no_tr cs [] shards sel cs' E) as (keep & Esel & Hd & Hk). cbn in Hd, Hk.
   rewrite Esel. apply flat_map_filter_eq.
